@@ -18,7 +18,24 @@ func genC19(rt *rapid.T) *Request {
 	rq := &Request{}
 	p := &rq.P
 	p.Protocol = oneOf(rt, "protocol", "udp", "udp", "tcp", "tcp", "icmp", "icmp", "UDP", "", "sctp", "Icmp", "tcp ")
-	p.TCPMethod = oneOf(rt, "method", "", "syn", "syn", "sack", "prefer_sack", "syn_socket", "SYN", "fin", "sack ")
+	p.TCPMethod = oneOf(rt, "method", "", "syn", "syn", "sack", "prefer_sack", "syn_socket", "fin")
+	// other spellings of a method are not that method (the accepted set is the exact lower-case names)
+	switch oneOf(rt, "method_spelling", "", "", "", "", "upper", "title", "lead-space", "trail-space") {
+	case "upper":
+		p.TCPMethod = strings.ToUpper(p.TCPMethod)
+	case "title":
+		if p.TCPMethod != "" {
+			p.TCPMethod = strings.ToUpper(p.TCPMethod[:1]) + p.TCPMethod[1:]
+		}
+	case "lead-space":
+		if p.TCPMethod != "" {
+			p.TCPMethod = " " + p.TCPMethod
+		}
+	case "trail-space":
+		if p.TCPMethod != "" {
+			p.TCPMethod += " "
+		}
+	}
 	if rapid.IntRange(0, 9).Draw(rt, "ttl_valid") < 6 {
 		p.MinTTL = oneOf(rt, "min_ok", 1, 1, 1, 2, 30, 254, 255)
 		p.MaxTTL = oneOf(rt, "max_ok", 1, 2, 3, 30, 254, 255, 255)
@@ -292,6 +309,64 @@ func TestC19Extremes(t *testing.T) {
 								return
 							}
 						}
+					}
+				}
+			}
+		}
+	}, checkC19)
+}
+
+// respell writes a parameter value the way users do: another letter case, surrounding whitespace.
+func respell(v, how string) string {
+	if v == "" {
+		return v
+	}
+	switch how {
+	case "upper":
+		return strings.ToUpper(v)
+	case "title":
+		return strings.ToUpper(v[:1]) + v[1:]
+	case "lead-space":
+		return " " + v
+	case "trail-space":
+		return v + " "
+	}
+	return v
+}
+
+// TestC19Spellings: the accepted protocol and method names are the exact lower-case ones; any other spelling is
+// either rejected or, if a site normalises it, executed as what it normalises to -- by every site. A request
+// must never be executed as something else than what one of its consumers rejected.
+func TestC19Spellings(t *testing.T) {
+	rec := NewRecorder("C19", "C19Spellings", "enumeration: protocol in {udp, tcp, icmp} and TCP method in {\"\", syn, sack, prefer_sack, syn_socket, fin}, each spelled exactly / upper case / capitalised / with a leading / a trailing blank, x (runs, e2e probes) in {(1,0),(0,1),(1,1),(0,0)} x library/HTTP, all other parameters plain; oracle of TestC19 (a spelling that is not the exact name is an unknown name: rejected, or nothing of it executed); exhaustive over that product")
+	rec.Exhaustive = true
+	RunCases(t, rec, func(yield func(*Request) bool) {
+		hows := []string{"", "upper", "title", "lead-space", "trail-space"}
+		type pm struct{ proto, method string }
+		var pms []pm
+		for _, pr := range []string{"udp", "tcp", "icmp"} {
+			for _, h := range hows {
+				pms = append(pms, pm{respell(pr, h), ""})
+			}
+		}
+		for _, m := range []string{"syn", "sack", "prefer_sack", "syn_socket", "fin"} {
+			for _, h := range hows {
+				pms = append(pms, pm{"tcp", respell(m, h)})
+			}
+		}
+		for _, x := range pms {
+			for _, qe := range [][2]int{{1, 0}, {0, 1}, {1, 1}, {0, 0}} {
+				for _, http := range []bool{false, true} {
+					rq := &Request{HTTP: http, Scripts: []FlowScript{{Default: HopSpec{Silent: true}}}}
+					rq.P = ReqParams{Protocol: x.proto, TCPMethod: x.method, MinTTL: 1, MaxTTL: 2, Port: 443, Queries: qe[0], E2e: qe[1], TimeoutMs: 5, DelayMs: 0, Hostname: "93.184.216.34"}
+					if x.proto == "tcp" && strings.Contains(strings.ToLower(x.method), "sack") {
+						// whatever the spelling is taken for, a SACK attempt can only reach a listener of the harness
+						rq.P.Hostname = "127.44.3.3"
+						rq.SackSrv = true
+						rq.Sack = SackCfg{Permit: true, TS: true, ClientNxt: 0x1000, ServerISN: 3, SynAckUs: 50}
+					}
+					if !yield(rq) {
+						return
 					}
 				}
 			}
